@@ -20,7 +20,8 @@
      denote_block   `_shift_funsor(trans, p-t-1)(time=slice_t)` at block b denotes F (t + p·b)
      contract_den   the chain contraction denotes the sum over the shared window
      termChain_den  the left-to-right block chain denotes `Sem.chain`
-  and the result (`sarkka_terms_eq_naive_terms_aligned`, `sarkka_terms_eq_naive_terms_partial`): the two
+  and the result (`sarkka_terms_eq_naive_terms`: every duration ≥ 1, via `…_aligned`, `…_partial` and the
+  ragged-tail lemmas `commute_step`, `prefixTermLoop_renamed`, `renameF_downBy_comp`): the two
   relative-name funsors are EQUAL (as functions of the result's names: name 0 = x_{T-1},
   name j = x_{-j}), via `Sem.sarkkaAbs_eq_naive`, for every num_periods (through `mixed_eq_fold` and
   `contract_assoc`).
@@ -649,18 +650,10 @@ theorem prefixTermLoop_naive (φ : Nat → RF σ R) (T : Nat) : ∀ t d, d + t =
     rw [this]
     exact ih (d + 1) (by omega)
 
-/--
-  FULL STATEMENT: ∀ T ≥ 1, `sarkkaTerm φ p np T = some (naiveTerm φ T)`.
-
-  PROVED here: durations that are a multiple of the period (`sarkka_terms_eq_naive_terms_aligned`) and durations
-  shorter than one period (the `truncated_duration == 0` branch: the same term).
-  MISSING: the branch `0 < T % p < T` — the recursive call on the time-shifted family `fun t => φ (t + r)` followed
-  by the prefix loop.  Its absolute-time content is proved (`Sem.sarkkaFull_eq_naive`, `Sem.prefixLoop_naive`);
-  what is not written is the time-shift equivariance `F (fun t => φ (t + r)) t e = F φ (t + r) (e ∘ (· - r))`
-  lifted through `naiveFrom`, and the anchoring of the recursive result's names (name 0 = x_{T-1},
-  name j = x_{r-j}, `prefix_rename`) for the loop.  That branch is covered by correspondence (every lag set ×
-  every duration up to 2·period+1, exhaustively).
--/
+/-- The two easy cases of `sarkka_terms_eq_naive_terms` (kept under its first name): durations that are a
+    multiple of the period and durations shorter than one period (the `truncated_duration == 0` branch: the same
+    term).  The ragged tail 0 < T % p < T is `prefixTermLoop_renamed` / `renameF_downBy_comp` below; the full
+    statement ∀ T ≥ 1 is `sarkka_terms_eq_naive_terms`. -/
 theorem sarkka_terms_eq_naive_terms_partial (k p np T : Nat) (hkp : k ≤ p) (hp : p > 0) (hnp : np > 0)
     (hT : T ≥ 1) (φ : Nat → RF σ R) (hφ : ∀ t, SuppLt (k + 1) (φ t)) (hcase : T % p = 0 ∨ T < p) :
     sarkkaTerm φ p np T = some (naiveTerm φ T) := by
@@ -679,5 +672,207 @@ theorem sarkka_terms_eq_naive_terms_partial (k p np T : Nat) (hkp : k ≤ p) (hp
     have := prefixTermLoop_naive φ T (T - 1) 0 (by omega)
     simp only [naiveLoop] at this
     rw [this, naiveTerm]
+
+
+/-! ### the ragged tail 0 < T % p < T, at term level -/
+
+/-- g does not read the state at name s -/
+def IndepName (g : RF σ R) (s : Nat) : Prop := ∀ (ρ : REnv σ) (x : σ), g (Function.update ρ s x) = g ρ
+
+theorem IndepName.mul {g h : RF σ R} {s : Nat} (hg : IndepName g s) (hh : IndepName h s) :
+    IndepName (g * h) s := by
+  intro ρ x; simp only [Pi.mul_apply, hg ρ x, hh ρ x]
+
+theorem IndepName.sumR_self (g : RF σ R) (s : Nat) : IndepName (sumR s g) s := by
+  intro ρ x; simp only [sumR, Function.update_idem]
+
+theorem IndepName.sumR {g : RF σ R} {s s' : Nat} (hg : IndepName g s) : IndepName (sumR s' g) s := by
+  by_cases h : s = s'
+  · subst h; exact IndepName.sumR_self g s
+  · intro ρ x
+    simp only [_root_.FV.Props.C10.Terms.sumR]
+    refine Finset.sum_congr rfl fun y _ => ?_
+    rw [Function.update_comm h, hg]
+
+/-- `_shift_funsor(f, n)` only reads names ≥ n -/
+theorem IndepName.shiftF (g : RF σ R) (n s : Nat) (h : s < n) : IndepName (shiftF n g) s := by
+  intro ρ x
+  simp only [_root_.FV.Props.C10.Terms.shiftF, renameF]
+  congr 1; funext s'
+  rw [Function.update_of_ne (by omega)]
+
+/-- every name 1 … d has been summed out of the naive loop after d steps -/
+theorem naiveLoop_indep (φ : Nat → RF σ R) (T : Nat) : ∀ d j, 1 ≤ j → j ≤ d → IndepName (naiveLoop φ T d) j := by
+  intro d
+  induction d with
+  | zero => intro j h1 h2; omega
+  | succ d ih =>
+    intro j h1 h2
+    rw [naiveLoop]
+    by_cases hj : j = d + 1
+    · subst hj; exact IndepName.sumR_self _ _
+    · exact IndepName.sumR (IndepName.mul (IndepName.shiftF _ _ _ (by omega)) (ih j h1 (by omega)))
+
+/-- a funsor independent of the names in L takes the same value on assignments that agree elsewhere -/
+theorem indepName_agree (G : RF σ R) : ∀ (L : List Nat), (∀ s ∈ L, IndepName G s) →
+    ∀ ρ ρ' : REnv σ, (∀ s, s ∉ L → ρ s = ρ' s) → G ρ = G ρ' := by
+  intro L
+  induction L with
+  | nil =>
+    intro _ ρ ρ' h
+    have : ρ = ρ' := funext fun s => h s (by simp)
+    rw [this]
+  | cons t L ih =>
+    intro hG ρ ρ' h
+    rw [← hG t (by simp) ρ' (ρ t)]
+    apply ih (fun s hs => hG s (by simp [hs]))
+    intro s hs
+    by_cases ht : s = t
+    · subst ht; simp
+    · rw [Function.update_of_ne ht]
+      exact h s (by simp [ht, hs])
+
+/-- the recursive call sees the time-shifted family: its naive loop is an initial segment of the full one -/
+theorem naiveLoop_shift (φ : Nat → RF σ R) (N r : Nat) (hN : N ≥ 1) : ∀ d, d ≤ N - 1 →
+    naiveLoop (fun t => φ (t + r)) N d = naiveLoop φ (N + r) d := by
+  intro d
+  induction d with
+  | zero =>
+    intro _
+    simp only [naiveLoop]
+    congr 1; omega
+  | succ d ih =>
+    intro hd
+    simp only [naiveLoop]
+    rw [ih (by omega)]
+    have : N - 1 - (d + 1) + r = N + r - 1 - (d + 1) := by omega
+    rw [this]
+
+/-- one step of the prefix loop on the already-renamed recursive result = the renamed naive step:
+    renaming by -m commutes with `Σ_{name a+m} shift(ψ, a+m) · X` as long as X no longer reads the (summed)
+    name a. -/
+theorem commute_step (m a : Nat) (ha : a ≥ 1) (ψ X : RF σ R) (hX : a < m → IndepName X a) :
+    renameF (downBy m) (sumR (a + m) (shiftF (a + m) ψ * X))
+      = sumR a (shiftF a ψ * renameF (downBy m) X) := by
+  funext ρ
+  simp only [renameF, sumR, Pi.mul_apply]
+  refine Finset.sum_congr rfl fun x _ => ?_
+  congr 1
+  · simp only [shiftF, renameF]
+    congr 1; funext s
+    by_cases hs : s = 0
+    · subst hs; simp
+    · rw [Function.update_of_ne (by omega), Function.update_of_ne (by omega), downBy_ge _ _ (by omega)]
+      congr 1; omega
+  · -- the two assignments differ at name a only, and only if a < m
+    by_cases ham : a < m
+    · have hI := hX ham
+      let ρ1 : REnv σ := Function.update (fun s => ρ (downBy m s)) (a + m) x
+      let ρ2 : REnv σ := fun s => Function.update ρ a x (downBy m s)
+      show X ρ1 = X ρ2
+      apply indepName_agree X [a] (by intro s hs; simp at hs; subst hs; exact hI)
+      intro s hs
+      simp only [List.mem_singleton] at hs
+      simp only [ρ1, ρ2, Function.update_apply]
+      by_cases h1 : s = a + m
+      · subst h1; rw [downBy_ge _ _ (by omega)]; simp
+      · have h2 : downBy m s ≠ a := by
+          by_cases hsm : m ≤ s
+          · rw [downBy_ge _ _ hsm]; omega
+          · have : downBy m s = s := by
+              simp only [downBy, shiftIdx]
+              by_cases h0 : m = 0
+              · omega
+              · rw [if_neg (by omega)]; simp only [Int.neg_neg, Int.toNat_natCast]; rw [if_neg (by omega)]
+            rw [this]; exact hs
+        simp [h1, h2]
+    · congr 1; funext s
+      simp only [Function.update_apply]
+      by_cases h1 : s = a + m
+      · subst h1; rw [downBy_ge _ _ (by omega)]; simp
+      · have h2 : downBy m s ≠ a := by
+          by_cases hsm : m ≤ s
+          · rw [downBy_ge _ _ hsm]; omega
+          · have : downBy m s = s := by
+              simp only [downBy, shiftIdx]
+              by_cases h0 : m = 0
+              · omega
+              · rw [if_neg (by omega)]; simp only [Int.neg_neg, Int.toNat_natCast]; rw [if_neg (by omega)]
+            rw [this]; omega
+        simp [h1, h2]
+
+/-- the prefix loop on the renamed recursive result is the renamed continuation of the naive loop -/
+theorem prefixTermLoop_renamed (φ : Nat → RF σ R) (m r : Nat) : ∀ t j, j + t = r →
+    prefixTermLoop φ r (renameF (downBy m) (naiveLoop φ (m + r + 1) (m + j))) t
+      = renameF (downBy m) (naiveLoop φ (m + r + 1) (m + r)) := by
+  intro t
+  induction t with
+  | zero => intro j h; simp only [Nat.add_zero] at h; subst h; rfl
+  | succ t ih =>
+    intro j h
+    rw [prefixTermLoop]
+    have e1 : r - t = j + 1 := by omega
+    have hstep : naiveLoop φ (m + r + 1) (m + (j + 1))
+        = sumR (j + 1 + m) (shiftF (j + 1 + m) (φ t) * naiveLoop φ (m + r + 1) (m + j)) := by
+      have : m + (j + 1) = (m + j) + 1 := by omega
+      rw [this, naiveLoop]
+      have e2 : m + r + 1 - 1 - (m + j + 1) = t := by omega
+      have e3 : m + j + 1 = j + 1 + m := by omega
+      rw [e2, e3]
+    rw [e1, ← commute_step m (j + 1) (by omega) (φ t) _
+      (fun _ => naiveLoop_indep φ _ (m + j) (j + 1) (by omega) (by omega)), ← hstep]
+    exact ih (j + 1) (by omega)
+
+/-- renaming by -r after renaming by -m is renaming by -(m+r), on a funsor whose names 1 … m+r are summed out -/
+theorem renameF_downBy_comp (m r : Nat) (G : RF σ R) (hG : ∀ j, 1 ≤ j → j ≤ m + r → IndepName G j) :
+    renameF (downBy r) (renameF (downBy m) G) = renameF (downBy (m + r)) G := by
+  funext ρ
+  simp only [renameF]
+  apply indepName_agree G ((List.range (m + r + 1)).filter (· ≥ 1))
+  · intro s hs
+    simp only [List.mem_filter, List.mem_range, decide_eq_true_eq] at hs
+    exact hG s hs.2 (by omega)
+  · intro s hs
+    simp only [List.mem_filter, List.mem_range, decide_eq_true_eq, not_and] at hs
+    by_cases h0 : s = 0
+    · subst h0; simp only [downBy_zero]
+    · have hge : m + r + 1 ≤ s := by
+        by_contra hlt
+        exact hs (by omega) (by omega)
+      rw [downBy_ge m s (by omega), downBy_ge r _ (by omega), downBy_ge (m + r) s (by omega)]
+      congr 1; omega
+
+/-- **sarkka_terms_eq_naive_terms**: for EVERY duration T ≥ 1 (multiple of the period, shorter than one period,
+    or with a ragged tail 0 < T % p < T handled by the recursive call + prefix loop), every lag set ⊆ {1..k} with
+    k ≤ p and every num_periods ≥ 1, the relative-name funsor sarkka_bilmes_product builds is the funsor
+    naive_sarkka_bilmes_product builds. -/
+theorem sarkka_terms_eq_naive_terms (k p np T : Nat) (hkp : k ≤ p) (hp : p > 0) (hnp : np > 0)
+    (hT : T ≥ 1) (φ : Nat → RF σ R) (hφ : ∀ t, SuppLt (k + 1) (φ t)) :
+    sarkkaTerm φ p np T = some (naiveTerm φ T) := by
+  by_cases hcase : T % p = 0 ∨ T < p
+  · exact sarkka_terms_eq_naive_terms_partial k p np T hkp hp hnp hT φ hφ hcase
+  · have hr0 : T % p ≠ 0 := fun h => hcase (Or.inl h)
+    have hTp : p ≤ T := by omega
+    have hrlt : T % p < p := Nat.mod_lt _ hp
+    have hdm := Nat.div_add_mod T p
+    have hn : T / p > 0 := Nat.div_pos hTp hp
+    have hN : T / p * p ≥ 1 := Nat.mul_pos hn hp
+    unfold sarkkaTerm
+    simp only []
+    rw [if_neg hr0, if_neg (by have := Nat.mod_le T p; omega),
+      sarkka_terms_eq_naive_terms_aligned k p np (T / p) hkp hp hnp hn _ (fun t => hφ (t + T % p))]
+    simp only [Option.map_some, Option.some.injEq]
+    -- N = (T/p)·p steps in the recursive call, m = N - 1, r = T % p, T = m + r + 1
+    generalize hNdef : T / p * p = N at hN
+    generalize hrdef : T % p = r at hr0 hrlt
+    have hTeq : T = (N - 1) + r + 1 := by rw [← hNdef, ← hrdef, Nat.mul_comm]; omega
+    rw [naiveTerm, naiveLoop_shift φ N r hN (N - 1) (Nat.le_refl _)]
+    have hNr : N + r = (N - 1) + r + 1 := by omega
+    rw [hNr]
+    have h0 := prefixTermLoop_renamed φ (N - 1) r r 0 (by omega)
+    simp only [Nat.add_zero] at h0
+    rw [h0, renameF_downBy_comp (N - 1) r _
+      (fun j h1 h2 => naiveLoop_indep φ _ (N - 1 + r) j h1 h2), naiveTerm, hTeq]
+    simp only [Nat.add_sub_cancel]
 
 end FV.Props.C10.Terms
